@@ -1,8 +1,4 @@
 use super::backend::{CmdTask, ConnFactory, IntoTask, SenderBackendError};
-#[cfg(undermoon_verif)]
-use crate::common::verif::sync::Mutex as MetaLock;
-#[cfg(not(undermoon_verif))]
-use parking_lot::Mutex as MetaLock;
 use super::blocking::{
     gen_basic_blocking_sender_factory, gen_blocking_sender_factory, BasicBlockingSenderFactory,
     BlockingBackendSenderFactory, BlockingCmdTaskSender, BlockingMap, CounterTask,
@@ -95,7 +91,10 @@ pub struct MetaManager<F: RedisClientFactory, C: ConnFactory<Pkt = RespPacket>> 
     // inside meta_map.
     meta_map: SharedMetaMap<C>,
     epoch: AtomicU64,
-    lock: MetaLock<()>, // This is the write lock for `epoch`, `cluster`, and `task`.
+    #[cfg(undermoon_verif)]
+    lock: crate::common::verif::sync::Mutex<()>,
+    #[cfg(not(undermoon_verif))]
+    lock: parking_lot::Mutex<()>, // This is the write lock for `epoch`, `cluster`, and `task`.
     replicator_manager: ReplicatorManager<F>,
     migration_manager: MigrationManager<
         F,
@@ -170,7 +169,10 @@ impl<F: RedisClientFactory, C: ConnFactory<Pkt = RespPacket>> MetaManager<F, C> 
             config,
             meta_map,
             epoch: AtomicU64::new(0),
-            lock: MetaLock::new(()),
+            #[cfg(undermoon_verif)]
+            lock: crate::common::verif::sync::Mutex::new(()),
+            #[cfg(not(undermoon_verif))]
+            lock: parking_lot::Mutex::new(()),
             replicator_manager: ReplicatorManager::new(
                 client_factory.clone(),
                 future_registry.clone(),
